@@ -14,6 +14,7 @@
      and the i64 code agree in both build profiles. *)
 From Coq Require Import ZArith.
 From SV Require Import Base.Bytes Spec.Civil Model.Time Model.TimeI64 Proofs.TimeP Proofs.TimeI64P.
+From SV Require Import Generated.SourceParams Tie.TimeTie.
 Open Scope Z_scope.
 
 (* C16.1  For EVERY epoch second s >= 0 (unbounded) and every fuel >= s/31536000 + 14,
@@ -196,6 +197,14 @@ Proof.
   repeat split; vm_compute; reflexivity.
 Qed.
 
+(* C16.src  is_leap_year and month_len_days as TRANSLATED from src/time.rs ON THIS RUN
+   (props/srcparams.py -> Generated/SourceParams.v) are the model's functions, for every year and
+   every month number (also outside 1..12, where both are unimplemented!()) *)
+Theorem c16_source_is_leap_year : forall y, src_is_leap_year y = is_leap_year y.
+Proof. exact is_leap_year_tie. Qed.
+Theorem c16_source_month_len_days : forall y m, src_month_len_days y m = month_len_days y m.
+Proof. exact month_len_days_tie. Qed.
+
 Print Assumptions c16_new_correct.
 Print Assumptions c16_result_year_bound.
 Print Assumptions c16_no_intermediate_overflow.
@@ -221,3 +230,5 @@ Print Assumptions c16_oracle_add_iff.
 Print Assumptions c16_oracle_new_sound.
 Print Assumptions c16_oracle_add_sound.
 Print Assumptions c16_oracle_iso_sound.
+Print Assumptions c16_source_is_leap_year.
+Print Assumptions c16_source_month_len_days.
